@@ -79,6 +79,21 @@ THEOREMS = {
     "C19_uninterrupted_retrospective_invocation": "never-interrupted retrospective invocation: n successful launches (the ideal commands) then one call that returns False; completed = crash_free",
     "C19_resume_refuted_empty_iter": "REFUTED for the examine of /repo today: batch size 2, crash between the two makedirs levels -> a completed step is deleted and launched again",
     "C19_resume_refuted_marker_early": "REFUTED without marker_last even with the repair: prospective mode, metadata published first (data dependence allows it) -> step without selection counts as complete",
+    "C19_model_is_source_examine": "the WHOLE function examine_output_dir_to_determine_current_iteration of /repo's script, re-translated into Gallina on every run, equals the model's examine with "
+                                   "fixed = true for every tree and batch size: both filtered + numerically sorted globs, the `continue` on an iteration directory without plate directories, current_plate_idx = 0, "
+                                   "the enumerate loop with its two raises and the directory each names, the leaked plate_dir, the next-step arithmetic, both returns",
+    "C19_model_is_source_examine_determines_fixed": "the translation determines the model parameter: src_examine = examine fixed for all inputs IFF fixed = true",
+    "C19_model_is_source_examine_not_unrepaired": "the translated examine differs from the unrepaired model (fixed = false) on the tree of C19_resume_refuted_empty_iter's witness (iter_1 created but empty)",
+    "C19_model_is_source_run_next_retrospective_step": "the WHOLE function run_next_retrospective_step, re-translated on every run (it calls the translated examine): for every tree and batch size its result - "
+                                                       "`return False` before anything is touched / the file-system actions in program order (rmtree, makedirs = two levels) ending in the launch and `return True` / "
+                                                       "the exception raised after those actions (no test screen, no thetas or distance chunks, None in a command line) / the named directory - is the model's plan_of Retro",
+    "C19_model_is_source_run_next_prospective_step": "the same for run_next_prospective_step = plan_of Prosp; its return value is current_plate_idx < batch_size - 1",
+    "C19_model_is_source_call_returns": "whenever the model's call_returns says a call handed b back to main(), b is the value the translated run_next_* returns",
+    "C19_model_is_source_get_screen_from_job_output": "the whole helper (called by the translated examine): advanced_screen.h5 if there is one, else training.screen.h5, else None = the model's screen_of",
+    "C19_model_is_source_validate_job_dir_and_return_meta": "the whole helper (called by the translated examine): None without screen_metadata.json, else the loaded metadata = f_meta",
+    "C19_model_is_source_get_test_screen_from_job_output": "the whole helper (called by the translated retrospective step): it globs for training.screen.h5 = the model's has_training / SFile s KTraining",
+    "C19_model_is_source_get_theta_and_dist_chunks": "the whole helper (called by both translated steps): ValueError unless thetas and distance chunks are both present = has_thetas_dist / AFail 2",
+    "C19_model_is_source_get_selected_plates": "the whole helper (called by both translated steps): the contents of the selected_plate files of the iteration, None when there are none = selected_plates",
 }
 ASSUMPTIONS = [
     "no nextflow engine is available: the three workflows are represented by harness/fake_nextflow/nextflow, whose publications follow main.nf / the "
@@ -99,7 +114,27 @@ EXPLANATION = ("Model: Model/Orchestrate.v (calls: attempt/script_run; invocatio
                "checks the same two things on the real main() (clauses wrong-operator-screen, invocation-crosses-batch) and compares the invocation log exactly.  "
                "The theorems are proved for the script WITH the one-line repair of examine (model parameter fixed=true) or batch "
                "size 1, and for publication orders in which screen_metadata.json is last; the two refuted statements show that each hypothesis is needed "
-               "and are replayed on the real script by this harness.  Which variant the real script corresponds to is probed at start-up (PROBED_FIXED).")
+               "and are replayed on the real script by this harness.  Which variant the real script corresponds to is probed at start-up (PROBED_FIXED).  "
+               "SOURCE LINK (C19_model_is_source_*): examine_output_dir_to_determine_current_iteration, run_next_retrospective_step, run_next_prospective_step and the helpers they call "
+               "(get_screen_from_job_output, validate_job_dir_and_return_meta, get_test_screen_from_job_output, get_theta_and_dist_chunks, get_selected_plates) are re-translated as WHOLE functions "
+               "from /repo's nextflow/scripts/batchie.py into Gallina on every run (harness/py2gal.py, configurations C19_* in harness/src_functions.py -> coq/theories/Generated/SrcOrchestrate.v; a translated "
+               "caller calls the translated callee) and proved equal to Orchestrate.examine with fixed = true / to plan_of (and call_returns) / to screen_of, f_meta, has_training, has_thetas_dist, selected_plates "
+               "for all inputs; the translation, not the start-up probe, fixes the model parameter (C19_model_is_source_examine_determines_fixed).  Loops, continue, both raises and the directory they name, "
+               "the Optionals, the leaked loop variable, the arithmetic, the early `return False`, the order of the file-system actions and of the checks after them, the no-match tests and None returns of "
+               "the helpers come from the translation.  TRUSTED by the link: the translator (incl. its new keys tail_dup - the statements after an `if` that may return are the tail of both branches - and "
+               "retype - a variable re-used at a second declared type; the exception monad Orchestrate.sres) and these primitives.  A path is the model value it denotes: output directory = the tree; a globbed "
+               "iteration directory = (index, its plate directories); a globbed plate directory = ((i, j), its files); a path BUILT by os.path.join(outdir, f'iter_{i}', f'plate_{j}') = the step (i, j) (with "
+               "one component: the index i) together with the tree it is resolved in.  examine: glob.glob(output_dir + '/iter_*') = the tree's entries, glob.glob(d + '/plate_*') = d's plate directories, "
+               "os.path.isdir = True (the model tree holds directories only), sorted(l, key=dir_sort_key) = the model's insertion sort by index (sort_dirs; equal indices such as iter_1 / iter_01 are not kept "
+               "in glob order), dir_sort_key(path) = its index.  Helpers: list(glob.glob(os.path.join(dir, '*', NAME))) for NAME = advanced_screen.h5 / training.screen.h5 / thetas*.h5 / "
+               "distance_matrix_chunk*.h5 = the one-or-no file of that kind in the job directory (the <name> level is abstracted), for screen_metadata.json = [its n_unobserved_plates] or [], "
+               "glob 'plate_*/*/selected_plate' under an iteration = its recorded selections in plate order (glob order not modelled), len, l[0] (IndexError on []), open(path) / json.load / f.read().strip() = "
+               "the value the file holds, the dict get_theta_and_dist_chunks returns = the directory it names.  run_next_*: os.path.splitext(os.path.basename(input_screen)) = an unmodelled name, "
+               "meta['n_unobserved_plates'] = the metadata value, every read of the output directory = a read of the tree AFTER the actions done so far (tree_after); effects: shutil.rmtree(job dir) = ARmTree, "
+               "os.makedirs(job dir) = AMkIter then AMkPlate, run_initial_plate / run_first_batch_plate / run_first_prospective_batch_plate / run_subsequent_batch_plate = the launch of that command with those "
+               "arguments, or a TypeError when one of the path arguments is None (excludes=None = no --excludes); ignored: logger.info, os.makedirs(output_dir) (creation of the output directory itself is "
+               "not modelled); extra_args / experiment_name are only handed on.  NOT translated: the four run_* command builders, dir_sort_key, get_args and main() (main's while-loop is Orchestrate.invocation; "
+               "the differential runs drive the real main()).")
 
 KINDS = ["training", "test", "thetas", "dist", "selected", "advanced", "meta"]
 FILES = ["training.screen.h5", "test.screen.h5", "thetas_0.h5", "distance_matrix_chunk_0.h5", "selected_plate",
